@@ -59,7 +59,7 @@ def gen_cfg(rng, dt, L, kind=None, op=None):
     elif kind == "rotdpp":
         cfg["method"] = "rotdpp"
         cfg["azimuths"] = np.sort(rng.uniform(0, 180, int(rng.integers(1, 8))))
-        cfg["percentile"] = float(rng.choice([0., 50., 100., float(rng.uniform(0, 100))]))
+        cfg["percentile"] = float(rng.choice([0., 50., 100., float(rng.uniform(0, 100)), float(rng.uniform(0, 100)), 0.5, 1.0, 99.5]))
     elif kind == "azimuthal":
         cfg["method"] = "azimuthal"
         cfg["azimuths"] = np.sort(rng.uniform(0, 180, int(rng.integers(1, 6))))
